@@ -18,6 +18,7 @@ import (
 	"fmt"
 	"os"
 	"os/exec"
+	"strconv"
 	"strings"
 	"sync"
 
@@ -50,6 +51,8 @@ func main() {
 	probe := flag.String("probe", "", "run a named hand-written schedule and print the observations")
 	stress := flag.Int("stress", 0, "internal: free-running stress for N milliseconds, print result JSON")
 	race := flag.Int("race-stats", 0, "internal: N rounds of the UpdateStats race search, print result JSON")
+	skipSort := flag.Bool("skip-sort-docs", false, "internal: stress with frac.Config.SkipSortDocs=true")
+	keepMeta := flag.Bool("keep-meta-file", false, "internal: stress with frac.Config.KeepMetaFile=true")
 	flag.Parse()
 	logger.SetLevel(zapcore.FatalLevel)
 
@@ -63,7 +66,7 @@ func main() {
 		return
 	}
 	if *stress > 0 {
-		res := runStress(*seed, *stress)
+		res := runStress(*seed, *stress, Opts{SkipSortDocs: *skipSort, KeepMetaFile: *keepMeta})
 		b, _ := json.Marshal(res)
 		fmt.Println(string(b))
 		return
@@ -138,11 +141,20 @@ func main() {
 	var wgr sync.WaitGroup
 	results := make([][]*Result, workers)
 	fail := ""
+	// the schedules are split into `workers` shards with fixed seeds (the cases do not depend on the parallelism);
+	// at most VERIF_HARNESS_WORKERS (default 4) worker processes run at the same time
+	par := 4
+	if v, err := strconv.Atoi(os.Getenv("VERIF_HARNESS_WORKERS")); err == nil && v > 0 {
+		par = v
+	}
+	sem := make(chan struct{}, par)
 	for k := 0; k < workers; k++ {
 		s := r.U64() >> 1
 		wgr.Add(1)
 		go func(k int, s uint64) {
 			defer wgr.Done()
+			sem <- struct{}{}
+			defer func() { <-sem }()
 			cmd := exec.Command(os.Args[0], "-worker", "-seed", fmt.Sprint(s), "-n", fmt.Sprint(per))
 			cmd.Stderr = os.Stderr
 			outb, err := cmd.Output()
@@ -173,7 +185,17 @@ func main() {
 	}
 	// free-running stress (supporting test): real goroutines, no schedule points taken
 	for i := 0; i < stressRuns; i++ {
-		cmd := exec.Command(os.Args[0], "-stress", fmt.Sprint(stressMs), "-seed", fmt.Sprint(r.U64()>>1))
+		// odd runs: SkipSortDocs=true (the sealed fraction reads through the active fraction's descriptor while
+		// Active.Release runs concurrently with the readers); every fourth run also KeepMetaFile=true
+		args := []string{"-stress", fmt.Sprint(stressMs), "-seed", fmt.Sprint(r.U64() >> 1)}
+		if i%2 == 1 {
+			args = append(args, "-skip-sort-docs")
+			w.Count("stress:skip-sort-docs")
+		}
+		if i%4 == 3 {
+			args = append(args, "-keep-meta-file")
+		}
+		cmd := exec.Command(os.Args[0], args...)
 		cmd.Stderr = os.Stderr
 		outb, err := cmd.Output()
 		var sr StressResult
